@@ -455,6 +455,11 @@ class Repo:
                     else:
                         # X = X pattern never occurs; fall through
                         pass
+                if isinstance(val, ast.Call) and not val.args and not val.keywords and isinstance(val.func, ast.Name) and len(bl) == 1:
+                    # NAME = helper(): a helper that statically selects a module / object (see resolve_expr)
+                    r = self.resolve_expr(mod, val, _seen)
+                    if r is not None and r.kind in ("module", "ext"):
+                        return r
                 return RepoObj(mod, name, "assign", val, b[2])
         for sm in mod.star_imports:
             if sm in self.mods:
@@ -511,6 +516,31 @@ class Repo:
                 return self.resolve_expr(mod, e.args[0], _seen)
             if f is not None and f.qual == "builtins.getattr" and len(e.args) == 2 and isinstance(e.args[1], ast.Constant) and isinstance(e.args[1].value, str):
                 return self.resolve_expr(mod, ast.Attribute(value=e.args[0], attr=e.args[1].value, ctx=ast.Load()), _seen)
+            if f is not None and f.kind == "repo" and getattr(f, "okind", None) == "def" and isinstance(f.node, ast.FunctionDef) and not e.args and not e.keywords and not f.node.decorator_list:
+                # NAME = helper() with a helper that only selects a module / object by statically decided conditions
+                # (NumPy version tests): the value is the expression it returns
+                def returned(stmts, depth=0):
+                    if depth > 4:
+                        return None
+                    for st in stmts:
+                        if isinstance(st, ast.Return):
+                            return st.value
+                        if isinstance(st, ast.If):
+                            v = static_module_cond(f.mod, st.test)
+                            if v is None:
+                                return None
+                            r_ = returned(st.body if v else st.orelse, depth + 1)
+                            if r_ is not None:
+                                return r_
+                            continue
+                        if isinstance(st, ast.Expr) and isinstance(st.value, ast.Constant):
+                            continue
+                        return None
+                    return None
+
+                rv = returned(f.node.body)
+                if rv is not None and not (isinstance(rv, ast.Constant)):
+                    return self.resolve_expr(f.mod, rv, _seen)
             return None
         if isinstance(e, ast.Subscript) and isinstance(e.value, ast.Name) and isinstance(e.slice, ast.Constant) and isinstance(e.slice.value, str):
             # NS = vars(anp) / NS = anp.__dict__ ; NS["ravel"]
